@@ -161,15 +161,41 @@ func (s ClientRecoveryStore) GetStore(prefix []byte) (storetypes.KVStore, bool) 
 	return nil, false
 }
 
-// closedIterator returns an iterator that is always closed, used when Iterator() or ReverseIterator() is called
+// closedIterator returns an iterator that is never valid, used when Iterator() or ReverseIterator() is called
 // with an invalid prefix or start/end key.
-func (s ClientRecoveryStore) closedIterator() storetypes.Iterator {
-	// Create a dummy iterator that is always closed right away.
-	it := s.subjectStore.Iterator([]byte{0}, []byte{1})
-	it.Close()
-
-	return it
+//
+// NOTE: it must not be derived from one of the underlying stores: an iterator of a cachekv-backed store
+// remains valid after Close() and would expose entries of the subject store.
+func (ClientRecoveryStore) closedIterator() storetypes.Iterator {
+	return emptyIterator{}
 }
+
+// emptyIterator is a storetypes.Iterator over nothing. It is invalid from the start, independently of the
+// kind of store backing the ClientRecoveryStore.
+type emptyIterator struct{}
+
+var _ storetypes.Iterator = emptyIterator{}
+
+// Domain implements storetypes.Iterator. The empty iterator has no domain.
+func (emptyIterator) Domain() ([]byte, []byte) { return nil, nil }
+
+// Valid implements storetypes.Iterator. It always returns false.
+func (emptyIterator) Valid() bool { return false }
+
+// Next implements storetypes.Iterator. It panics, as the iterator is never valid.
+func (emptyIterator) Next() { panic(errors.New("invalid iterator")) }
+
+// Key implements storetypes.Iterator. It panics, as the iterator is never valid.
+func (emptyIterator) Key() []byte { panic(errors.New("invalid iterator")) }
+
+// Value implements storetypes.Iterator. It panics, as the iterator is never valid.
+func (emptyIterator) Value() []byte { panic(errors.New("invalid iterator")) }
+
+// Error implements storetypes.Iterator.
+func (emptyIterator) Error() error { return nil }
+
+// Close implements storetypes.Iterator.
+func (emptyIterator) Close() error { return nil }
 
 // SplitPrefix splits the key into the prefix and the key itself, if the key is prefixed with either "subject/" or "substitute/".
 // If the key is not prefixed with either "subject/" or "substitute/", the prefix is nil.
